@@ -139,8 +139,11 @@ func (sc *serverConn) processSetting(s SettingsFlagIdValue) error {
 
 func (sc *serverConn) processSettingInitialWindowSize(val uint32) error {
 	sc.serveG.Check()
-	// Note: val already validated to be within range by
-	// processSetting's Valid call.
+	// "The legal range for the flow control window is 0 to 2^31-1"
+	if val > 1<<31-1 {
+		state.SpdyErrFlowControl.Inc(1)
+		return ConnectionError(FlowControlError)
+	}
 
 	// "A SETTINGS frame can alter the initial flow control window
 	// size for all current streams. When the value of
